@@ -62,4 +62,25 @@ PROPS = {
                 "counted from the calls' return values; non-trivial = the history contains a match that executed",
         "assumptions": ["every order carries the level's price (what an order book guarantees); sequential half only so far"],
     },
+    "C19": {
+        "engines": ["queue"],
+        "footprint": {"q.push": "*", "q.pop": "*", "q.find": "*", "q.remove": "*", "q.len": "*", "q.isempty": "*",
+                      "q.tovec": "*", "q.fromvec": "*", "qnew": "*"},
+        "nontrivial": r"^q\.(pop|remove) [A-Z]",
+        "rule": "E-seq on the exported OrderQueue: random sequences (1-30 ops, thorough 1-60) of push/pop/find/remove/len/is_empty/to_vec on a "
+                "pool of 2-7 ids, ids pushed once or (one third of the cases) re-pushed after removal, a quarter of the queues built by from_vec, "
+                "then a drain; every answer compared with the model and judged against the abstract FIFO run by the driver; non-trivial = a pop "
+                "or remove that returned an order; distinct = distinct op list",
+        "assumptions": ["no push of an id that is currently queued (the property's quantifier: pushed once or re-pushed after removal)"],
+    },
+    "C04": {
+        "engines": ["seq", "seq0"],
+        "footprint": {"match": ["txs"]},
+        "nontrivial": r"^match txs=\[[^\]]*,[^\]]*\]",
+        "rule": "E-seq/E-seq0 histories (adds, matches of any size, cancels, re-adds of cancelled ids, same-price amends, all order kinds) "
+                "followed by three draining matches; the maker sequence of every match is compared with the model's and judged: equal to the "
+                "model's, and the model's hand-out order after the op compared with the order the property's rules give from the order before it "
+                "(deviations classified F1 / F2 are the known findings); non-trivial = a match with at least two transactions",
+        "assumptions": ["as C01"],
+    },
 }
